@@ -79,7 +79,7 @@ def report(prop, tier, seed, res, mod, t0, write):
         inconclusive.append('no case was executed')
 
     wall = time.time() - t0
-    if write and mod is not None:
+    if write and mod is not None and not os.environ.get('VERIF_NOEVIDENCE'):
         meta = mod.meta(tier)
         if len(res['hashes']) < 2 and 'too few distinct non-trivial cases' not in inconclusive:
             inconclusive.append('too few distinct non-trivial cases')
